@@ -272,7 +272,8 @@ func (wf *WALFileType) readTGData() (tgID int64, tgSerialized []byte, err error)
 	}
 	tgLen := io.ToInt64(tgLenSerialized)
 
-	if !sanityCheckValue(wf.FilePtr, tgLen) {
+	// a transaction group holds at least its ID; a shorter (or negative) length is damage
+	if tgLen < tgIDBytes || !sanityCheckValue(wf.FilePtr, tgLen) {
 		return 0, nil, errors.New(io.GetCallerFileContext(0) + fmt.Sprintf(": Insane TG Length: %d", tgLen))
 	}
 
